@@ -16,13 +16,13 @@ from mc.models import xsdregex as X
 
 TOKENS = ['a', 'b', '5', '.', '|', '(', ')', '*', '+', '?', '{1}', '{0,1}', '{2,}', '{2,1}', '[ab]', '[^a]', '[a-c]', '[^a\\D]', '[a-c-[b]]', '[\\d-[5]]',
           '\\d', '\\D', '\\s', '\\S', '\\w', '\\W', '\\i', '\\c', '\\p{Lu}', '\\P{L}', '\\p{IsBasicLatin}', '^', '$', '\\1', '(?:', '\\n', '\\.', ']', '-', '\\q']
-CLASS_TOKENS = ['a', 'b', 'c', '5', '-', '^', '\\d', '\\D', '\\s', '\\w', '\\W', 'a-c', '\\p{Lu}', '\\P{L}', '-[b]', '-[\\d]', '-[^a]', '\\-', '\\^', '\\]', 'B']
+CLASS_TOKENS = ['a', 'b', 'c', '5', '-', '^', '\\d', '\\D', '\\s', '\\w', '\\W', 'a-c', '\\p{Lu}', '\\P{L}', '-[b]', '-[\\d]', '-[^a]', '\\-', '\\^', '\\]', 'B', 'a-a', '5-5', '\\[', 'b-a']
 UNIVERSE = ['a', 'b', 'c', 'd', 'B', '5', '٣', '-', '^', ' ', '\n', 'é', '_', ']', '[', '\\', '$', '\xa0']
 SUBJECTS = sorted(set([''.join(t) for n in range(0, 3) for t in itertools.product(['a', 'b', '5', '\n', 'B', '-'], repeat=n)] +
                       ['aab', 'abb', 'ab5', 'aa5b', '٣', 'é', '^', '$', 'a\nb', ']', '[', '.', ' ', 'aaa', 'bab', 'a.', '55', 'a-c', '_', '+', '\xa0', 'a_']))
 FLAVOURS = [('xsd', '1.0'), ('xsd', '1.1'), ('xpath2', '1.0'), ('xpath3', '1.1')]
 CORPUS = ['a', 'a+', 'a*b', '(a|b)+5', 'a.b', '^a', 'b$', '^a.b$', '[a-c]+', '[^a]', '\\d+', '\\w+', '\\s', '(a)(b)?', '(a+)\\1', 'a|ab', 'a+?', 'a*?b', '(?:ab)+', 'a b', 'A', '[A-C]', 'ab|b5',
-          '.', '.+', '^', '$', '^$', '\\p{Lu}', 'a{2}', '(a|ab)(c|bcd)?', '-', 'a\\.b', '\\n', '.*b', '((b)|(a))', '(a(b)?)+', '<', '&',
+          '.', '.+', '^', '$', '^$', '\\p{Lu}', 'a{2}', '(a|ab)(c|bcd)?', '-', 'a\\.b', '\\n', '.*b', '((b)|(a))', '(a(b)?)+', '<', '&', '((a)b)', '((a)(b))5', '(a(b))', '((a))', '(a)((b)5)', '((a)|b)+',
           # category and class escapes whose meaning must not change under the i flag; complemented ones
           '\\P{Lu}', '\\P{Ll}+', '\\p{Ll}', '\\P{L}', '^\\P{Lu}+$', '\\D', '\\S+', '[\\p{Lu}]', '[\\P{Lu}5]', 'a\\P{Lu}']
 QUANT_BOUNDS = ['{2,10}', '{10,9}', '{9,10}', '{10}', '{0,12}', '{100,20}', '{11,}', '{2,3}', '{3,2}', '{8,64}', '{99,100}', '{10,10}', '{1,1}', '{0,0}', '{12,2}', '{02,10}', '{2,010}']
@@ -380,8 +380,9 @@ def run_functions(unit, tier, acc):
             if r_id != ('val', s):
                 acc.violation('C12|functions|%s|replace-with-$0-is-not-identity' % fl, 'replace(%r, %r, "$0")' % (s, pat), {'observed': repr(r_id)[:100]}, case)
             if fl == 'xpath3':
-                r_an = ev('let $r := analyze-string($s, $p) return (string($r), string-join($r/*[local-name() = "non-match"]/string(), "|"), '
-                          'string-join($r/*[local-name() = "match"]/string(), "|"), string-join($r/*/local-name(), ","))', s=s, p=pat)
+                # texts are collected from the text nodes in document order (fn:string() of nested elements has its own recorded defect, C02)
+                r_an = ev('let $r := analyze-string($s, $p) return (string-join($r//text(), ""), string-join($r/*[local-name() = "non-match"]/string-join(.//text(), ""), "|"), '
+                          'string-join($r/*[local-name() = "match"]/string-join(.//text(), ""), "|"), string-join($r/*/local-name(), ","))', s=s, p=pat)
                 acc.ev()
                 acc.cmp()
                 if r_an[0] != 'val':
@@ -392,7 +393,7 @@ def run_functions(unit, tier, acc):
                 want_mat = '|'.join(s[b:e] for b, e in spans)
                 if whole != s or nonm != want_nonm or mat != want_mat:
                     nested = re.search(r'\((?!\?)[^)]*\((?!\?)', pat) is not None
-                    acc.violation('C12|functions|%s|analyze-string|%s' % (fl, 'nested-capturing-groups' if nested else pattern_class(pat)), 'analyze-string(%r, %r)' % (s, pat),
+                    acc.violation('C12|functions|%s|analyze-string|%s' % (fl, ('nested-capturing-groups:' + pat) if nested else pattern_class(pat)), 'analyze-string(%r, %r)' % (s, pat),
                                   {'expected': [s, want_nonm, want_mat], 'observed': [whole, nonm, mat, kinds]}, case)
     acc.sample({'flavour': fl, 'expression': 'tokenize("banana", "a")', 'expected': ['b', 'n', 'n', '']})
 
@@ -472,8 +473,8 @@ def run_functions_flags(unit, tier, acc):
                 if got_tok != want_tok:
                     acc.violation('C12|functions-with-flags|%s|tokenize|flags:%s' % (fl, flags), 'tokenize(%r, %r, %r)' % (s, pat, flags), {'expected': want_tok, 'observed': repr(got_tok)[:100]}, case)
                 if fl == 'xpath3':
-                    r_an = ev('let $r := analyze-string($s, $p, $f) return (string($r), string-join($r/*[local-name() = "non-match"]/string(), "|"), '
-                              'string-join($r/*[local-name() = "match"]/string(), "|"))', s=s, p=pat, f=flags)
+                    r_an = ev('let $r := analyze-string($s, $p, $f) return (string-join($r//text(), ""), string-join($r/*[local-name() = "non-match"]/string-join(.//text(), ""), "|"), '
+                              'string-join($r/*[local-name() = "match"]/string-join(.//text(), ""), "|"))', s=s, p=pat, f=flags)
                     acc.ev()
                     acc.cmp()
                     want_an = [s, '|'.join(x for x in parts if x != ''), '|'.join(s[b:e] for b, e in spans)]
